@@ -147,6 +147,19 @@ def run(tier):
         from poetry.core.constraints.version import Version
         va, vb = Version.parse(a), Version.parse(b)
         if m[1] != ("true" if va == vb else "false"): R.disagree("version equality", dict(a=a, b=b), m, va == vb)
+    # model tie: == between constraint objects = vc_eqb of the model (the relation C18_constraint_equivalence / _interchangeable speak
+    # about), on the constraint pools (texts only); counts how many pairs have good members on both sides
+    ctexts = [s for s, _ in P["constraint"] + P["constraint_near"] if "self" not in s]
+    from poetry.core.constraints.version import parse_constraint
+    cobjs = {s: parse_constraint(s) for s in ctexts}
+    cpairs = [(a, b) for a in ctexts for b in ctexts]
+    for (a, b), m in zip(cpairs, M.many([["ceq", a, b] for a, b in cpairs])):
+        R.count("constraint_eq_model_pairs")
+        if m and m[0] in ("true", "false"):
+            if len(m) > 1 and m[1] == "true": R.count("constraint_eq_model_pairs_good")
+            if m[0] != ("true" if cobjs[a] == cobjs[b] else "false"): R.disagree("constraint equality", dict(a=a, b=b), m, cobjs[a] == cobjs[b])
+        else:
+            R.count("constraint_eq_model_unparsed")
     M.close()
     return R.finish(TRUSTED, ASSUME, RULE, "make -C coq Properties/C18.vo && coqc Properties/C18.v (Print Assumptions)")
 
